@@ -37,6 +37,99 @@ scon::scon (layout const &l)
   : m_buf (l.size (), 85)
 {}
 
+#ifdef DWGREP_VERIF
+#include <cstdio>
+#include <cstdlib>
+
+namespace
+{
+  __attribute__ ((noreturn)) void
+  verif_fail (char const *what, size_t loc, size_t size, char const *type,
+	      char const *other = nullptr, size_t oloc = 0, size_t osize = 0)
+  {
+    std::fprintf (stderr, "DWGREP_VERIF scon: %s: loc=%zu size=%zu type=%s",
+		  what, loc, size, type);
+    if (other != nullptr)
+      std::fprintf (stderr, " other: loc=%zu size=%zu type=%s",
+		    oloc, osize, other);
+    std::fprintf (stderr, "\n");
+    std::fflush (stderr);
+    std::abort ();
+  }
+}
+
+void
+scon::verif_con (size_t loc, size_t size, char const *type, bool trivial)
+{
+  if (loc + size > m_buf.size ())
+    verif_fail ("construction outside the state area", loc, size, type);
+
+  // No live state may overlap [loc, loc + size).
+  auto it = m_verif_live.lower_bound (loc);
+  if (it != m_verif_live.end () && it->first < loc + size)
+    {
+      // Trivially destructible states may be abandoned without des and
+      // their storage reused.
+      if (it->second.m_trivial && it->first == loc
+	  && it->second.m_size == size)
+	m_verif_live.erase (it);
+      else
+	verif_fail ("construction overlaps a live state", loc, size, type,
+		    it->second.m_type, it->first, it->second.m_size);
+    }
+  it = m_verif_live.lower_bound (loc);
+  if (it != m_verif_live.begin ())
+    {
+      --it;
+      if (it->first + it->second.m_size > loc)
+	verif_fail ("construction overlaps a live state", loc, size, type,
+		    it->second.m_type, it->first, it->second.m_size);
+    }
+
+  m_verif_live[loc] = verif_entry {size, type, trivial};
+}
+
+void
+scon::verif_des (size_t loc, size_t size, char const *type)
+{
+  auto it = m_verif_live.find (loc);
+  if (it == m_verif_live.end ())
+    verif_fail ("destruction of a state that is not live", loc, size, type);
+  if (it->second.m_size != size || it->second.m_type != type)
+    verif_fail ("destruction with a different type", loc, size, type,
+		it->second.m_type, it->first, it->second.m_size);
+  // scon::des reaches the dying state through get: leave a zero-sized
+  // marker that the next get on this location consumes.
+  it->second.m_size = 0;
+  it->second.m_trivial = true;
+}
+
+void
+scon::verif_get (size_t loc, size_t size, char const *type)
+{
+  auto it = m_verif_live.find (loc);
+  if (it == m_verif_live.end ())
+    verif_fail ("access to a state that is not live", loc, size, type);
+  if (it->second.m_size == 0)
+    {
+      // The access that des performs on the state it is destroying.
+      m_verif_live.erase (it);
+      return;
+    }
+  if (it->second.m_size != size || it->second.m_type != type)
+    verif_fail ("access with a different type", loc, size, type,
+		it->second.m_type, it->first, it->second.m_size);
+}
+
+scon::~scon ()
+{
+  for (auto const &e: m_verif_live)
+    if (! e.second.m_trivial)
+      verif_fail ("state still live when the state area is destroyed",
+		  e.first, e.second.m_size, e.second.m_type);
+}
+#endif
+
 scon_guard::scon_guard (scon_guard &&mv)
   : m_sc {mv.m_sc}
   , m_op {mv.m_op}
